@@ -19,7 +19,9 @@ level (`.fixed`; exact for fixed-size elements).  Here:
 
 Hypothesis on the element type: its encoding is self-delimiting and not empty (`VarFile.Delim`:
 `T::read` consumes exactly what `T::write` produced, whatever follows) – what every `Writeable`
-stored in a data file satisfies.  Not modelled: `size: bytes.len() as u16` (elements ≥ 65536 bytes). -/
+stored in a data file satisfies – and is shorter than 65536 bytes: `SizeEntry.size` is a `u16`
+(`bytes.len() as u16`; the model wraps as the code does, `VarFile.u16`, and `oversize_element_lost`
+shows what then happens). -/
 namespace GV.Props.C08Var
 open GV GV.Pmmr GV.Pmmr.Co GV.Store GV.Store.VarFile
 
@@ -90,6 +92,31 @@ theorem var_file_unit {el : Bytes → Option Nat} {v : VarFile} {f : AOF Bytes} 
   obtain ⟨v₁, a1, r1⟩ := (h.rewind hb pos hp).append e₁ h1
   obtain ⟨v₂, a2, r2⟩ := r1.append e₂ h2
   exact ⟨v₂, by rw [a1]; exact a2, r2.flush, r2.discard⟩
+
+/-- **An element of 65536 bytes or more is lost** (`size: bytes.len() as u16`): its size entry holds
+the length modulo 2^16, so reading it back hands `T::read` a slice that is too short – for a
+self-delimiting reader a read error (`None`), although `append` reported success.  No type stored
+in a variable-size data file comes near (a `TxKernel` has at most 114 bytes); run `varopen`
+probes it on the code with a test element type (`store new big`). -/
+theorem oversize_element_lost (el : Bytes → Option Nat) (e : Bytes) (he : 65536 ≤ e.length)
+    (hel : ∀ b, b.length < e.length → el b = none ∨ ∃ n, el b = some n ∧ b.length < n) :
+    ∃ v', VarFile.append {} e = some v' ∧ v'.sizeFile.buffer = [(0, e.length % 65536)] ∧
+      VarFile.read el v' 0 = none := by
+  refine ⟨_, rfl, rfl, ?_⟩
+  have hlt : e.length % 65536 < e.length := by
+    have := Nat.mod_lt e.length (show 0 < 65536 by omega); omega
+  have hs : (slice e 0 (e.length % 65536)).length < e.length := by
+    unfold slice
+    split
+    · simp; omega
+    · simp; omega
+  simp only [VarFile.read, VarFile.readBytes, VarFile.sizeUnsyncInElmts, VarFile.offsetAndSize, VarFile.append,
+    VarFile.u16, AOF.sizeUnsyncInElmts, AOF.append, AOF.read]
+  simp only [List.nil_append, List.length_cons, List.length_nil, Nat.zero_add, ge_iff_le, Nat.le_refl,
+    Nat.not_succ_le_zero, if_false, Nat.lt_irrefl, Nat.sub_self, List.getElem?_cons_zero, Nat.zero_sub]
+  rcases hel _ hs with h | ⟨n, h, hn⟩
+  · simp [h]
+  · simp [h]; omega
 
 /-! ## histories -/
 
@@ -169,9 +196,9 @@ def lenPrefixed : Bytes → Option Nat
   | [] => none
   | n :: _ => some (n + 1)
 
-theorem lenPrefixed_delim (n : Nat) (body : Bytes) (h : body.length = n) :
+theorem lenPrefixed_delim (n : Nat) (body : Bytes) (h : body.length = n) (hn : n < 65535) :
     Delim lenPrefixed (n :: body) := by
-  refine ⟨by simp, fun rest => ?_⟩
+  refine ⟨⟨by simp, by simp [h]; omega⟩, fun rest => ?_⟩
   simp [lenPrefixed, h]
 
 /-- a concrete represented file: two elements on disk, the file rewound to one element, one element
@@ -179,9 +206,9 @@ buffered (hypotheses of every file-level theorem are satisfiable in a rewound, d
 example : ∃ v : VarFile, Rep lenPrefixed v
     { disk := [[2, 7, 9], [0]], buffer := [[1, 5]], bsp := 1, bak := 2 } ∧
     VarFile.read lenPrefixed v 1 = some [1, 5] ∧ v.sizeFile.buffer = [(3, 2)] := by
-  have d1 := lenPrefixed_delim 2 [7, 9] rfl
-  have d2 := lenPrefixed_delim 0 [] rfl
-  have d3 := lenPrefixed_delim 1 [5] rfl
+  have d1 := lenPrefixed_delim 2 [7, 9] rfl (by omega)
+  have d2 := lenPrefixed_delim 0 [] rfl (by omega)
+  have d3 := lenPrefixed_delim 1 [5] rfl (by omega)
   have h0 : Rep lenPrefixed {} {} := rep_empty _
   obtain ⟨v1, a1, r1⟩ := h0.append _ d1
   obtain ⟨v2, a2, r2⟩ := r1.append _ d2
@@ -212,8 +239,8 @@ example : RefSt.Proto {} [.push [2, 7, 9], .push [0], .sync, .rewind 1 [], .push
   · intro e he
     simp only [List.mem_cons, HOp.push.injEq, List.mem_nil_iff, or_false, reduceCtorEq, false_or] at he
     rcases he with rfl | rfl | rfl
-    · exact lenPrefixed_delim 2 [7, 9] rfl
-    · exact lenPrefixed_delim 0 [] rfl
-    · exact lenPrefixed_delim 1 [5] rfl
+    · exact lenPrefixed_delim 2 [7, 9] rfl (by omega)
+    · exact lenPrefixed_delim 0 [] rfl (by omega)
+    · exact lenPrefixed_delim 1 [5] rfl (by omega)
 
 end GV.Props.C08Var
